@@ -204,6 +204,16 @@ def oracle(w: Any, params: Any) -> List[dict]:
                          (rec.handler_done_at is not None and rec.handler_done_at > t))]
                 if busy:
                     out.append(V("shutdown-early", tag, f"lifespan.shutdown at {t} (t0={t0}) while connections {busy} were still open"))
+        # the same by the logical clock (orders events inside one virtual instant): a request instance that was
+        # running when lifespan.shutdown was delivered and only ended afterwards, inside the grace period
+        for m, sq, (t, what, _) in zip(life.received, life.recv_seq, [l for l in life.log if l[1] == "recv"]):
+            if m["type"] != "lifespan.shutdown" or t >= t0 + GRACE - 1e-9:
+                continue
+            over = [i.scope.get("path") for i in reqs if i.seq_start < sq and (i.seq_end is None or i.seq_end > sq)
+                    and i.outcome != "running"]
+            if over:
+                out.append(V("shutdown-early", f"{tag}:request-still-running",
+                             f"lifespan.shutdown delivered at {t} (t0={t0}) before request(s) {over} had finished"))
         if w.serve_result is None and ticks_left and fam == "life":
             out.append(V("shutdown-hang", tag, f"now {w.final_time}, t0={t0}: no timer armed and worker_serve has not returned"))
         if w.serve_result is not None and w.serve_done_at > t0 + GRACE + SHUT_T + 1e-9:
